@@ -137,6 +137,7 @@ def check_format(ctx, kind, c, tokens, pts, epoch):
         sig = {"rep": pdesc["rep"], "repeated": repeated, "full": full}
         want = posix(tokens, dict(cv, inst=cv["inst"] - epoch + EPOCH))
         ctx.transitions += 2
+        impl._H.ticks = 0
         try:
             got = p.strftime(fmt)
             got2 = dumper.strftime(p, fmt)
@@ -155,6 +156,7 @@ def check_format(ctx, kind, c, tokens, pts, epoch):
         if "s" in given and not 1840 <= cv["Y"] <= 2100:
             continue
         ctx.transitions += 1
+        impl._H.ticks = 0
         try:
             with impl.system_zone(0):
                 q = parser().strptime(got, fmt)
